@@ -379,8 +379,8 @@ def closure_of_operand(W, f, op):
     if src and src[0] == 'stmt' and src[1].rv.k == 'agg' and src[1].rv.j.get('ak') == 'closure':
         from .facts import strip_generics
         cp = strip_generics(src[1].rv.j['closure'])
-        for c in W.closures_of(f):
-            if c.path == cp:
+        for c in W.fns():
+            if c.kind == 'closure' and c.path == cp:
                 return ('closure', c)
     if op.kind == 'const' and op.fn_path():
         return ('fn', op.fn_path())
